@@ -302,6 +302,10 @@ func buildSignVerbatimRole(data *framework.FieldData, role *roleEntry) *roleEntr
 		if role.MaxTTL > 0 {
 			entry.MaxTTL = role.MaxTTL
 		}
+		// The role's ttl and max_ttl bound the lifetime of what is signed
+		// through it; its not_after_bound decides whether the not_after
+		// request parameter may go beyond them and must be kept as well.
+		entry.NotAfterBound = role.NotAfterBound
 		if role.GenerateLease != nil {
 			*entry.GenerateLease = *role.GenerateLease
 		}
